@@ -197,6 +197,39 @@ pub fn cases(_tier: &str, _seed: u64) -> Vec<Case> {
             }
         }
     }
+    // the same headers through a writer that accepts 5 or 8 bytes per call (`write_all` semantics: the
+    // whole header must arrive) and through storage that is too short (an error, not a truncated header)
+    {
+        struct Chunky(Vec<u8>, usize);
+        impl std::io::Write for Chunky {
+            fn write(&mut self, buf: &[u8]) -> std::io::Result<usize> { let n = buf.len().min(self.1); self.0.extend_from_slice(&buf[..n]); Ok(n) }
+            fn flush(&mut self) -> std::io::Result<()> { Ok(()) }
+        }
+        for (oi, o) in crate::gen::Gen::OPCODES.iter().enumerate() {
+            for r in crate::gen::Gen::RCODES.iter() {
+                let mut p = Packet::new_query(0x0102 + oi as u16);
+                p.set_flags(set_of(0x55));
+                *p.opcode_mut() = *o;
+                *p.rcode_mut() = *r;
+                p.questions.push(Question::new(Name::new_unchecked("q"), TYPE::A.into(), CLASS::IN.into(), false));
+                let want = p.build_bytes_vec().unwrap();
+                for chunk in [5usize, 8] {
+                    let mut w = Chunky(vec![], chunk);
+                    let ok = p.write_to(&mut w).is_ok();
+                    let mut c = Case::oracle_only().tag("chunked-writer");
+                    if !ok || w.0 != want { c = c.fail("header-chunked", format!("opcode {:?} rcode {:?}: through a writer taking {} bytes per call the message differs from build_bytes_vec", o, r, chunk)); }
+                    v.push(c);
+                }
+                for cap in [0usize, 5, 11] {
+                    let mut store = vec![0xEEu8; cap];
+                    let res = p.write_to(&mut &mut store[..]);
+                    let mut c = Case::oracle_only().tag("short-storage");
+                    if res.is_ok() { c = c.fail("header-truncated", format!("writing into {} bytes of storage reports success", cap)); }
+                    v.push(c);
+                }
+            }
+        }
+    }
     // constructor side: new_query / new_reply / into_reply / set_id
     for id in [0u16, 1, 255, 256, 0x1234, 0x8000, 0xFFFF] {
         let q = Packet::new_query(id);
